@@ -82,7 +82,21 @@ Definition first_steps_b (g : Z) : list dstep := steps_of empty_store (BWrite [(
 Definition first_steps_f (g gfh : Z) : list dstep := [DAppendF [gfh]; DFTip g].
 
 (* crash in phase 1 (filter = false: inside the block store's genesis write)
-   or phase 2 (filter = true: block store complete, inside the filter store's) *)
+   or phase 2 (filter = true: block store complete, inside the filter store's).
+
+   THE ORDER MATTERS.  The filter store has no index entries of its own: its
+   tip key holds a BLOCK hash whose height is resolved through the entry the
+   block store wrote.  With the block store first, the genesis entry exists
+   before the filter tip is written, and every crash point recovers
+   (C08_first_start_crash_recovers).  With the filter store first
+   (first_steps_f from empty_store), a crash after the filter tip commit and
+   before the block store's genesis commit leaves a filter tip the index does
+   not know: NewFilterHeaderStore - the first constructor called in that
+   order - fails on it for good (a tip key that EXISTS is deliberately not
+   treated as "never initialised" by resetIfNoTip); see the Example
+   C08_first_start_order_matters.  NewChainService (neutrino.go) opens the
+   block store first; the harness checks that order on the real constructor
+   (family "first start through NewChainService"). *)
 Definition first_start_crash (g gfh : Z) (filter : bool) (k : nat) (torn : option Z) : option store :=
   if filter then
     match apply_steps empty_store (first_steps_b g) with
@@ -90,6 +104,12 @@ Definition first_start_crash (g gfh : Z) (filter : bool) (k : nat) (torn : optio
     | None => None
     end
   else crash_state empty_store (first_steps_b g) k torn.
+
+(* the whole first start as NewChainService performs it: the four durable
+   steps first_steps_b ++ first_steps_f, crash after the first k of them *)
+Definition first_start_crash_cs (g gfh : Z) (k : nat) (torn : option Z) : option store :=
+  if (k <? 2)%nat then first_start_crash g gfh false k torn
+  else first_start_crash g gfh true (k - 2) torn.
 
 (* the filter store after a header state reset: genesis entry only, tip =
    genesis block; the block store and the shared index entries are untouched *)
